@@ -1,5 +1,8 @@
 import FFVerif.Props.C11
+import FFVerif.Props.C11Deriv
 import FFVerif.Props.C07
+import FFVerif.Props.C11Asm
+import FFVerif.Props.C11AsmDeriv
 import FFVerif.Pins.pinGetFFDerivative
 import FFVerif.Pins.pinGradControlMatrix
 import FFVerif.Pins.pinInfidelityDerivative
@@ -36,6 +39,41 @@ import FFVerif.Pins.C11_gradient_einsum_shape
 #print axioms FFVerif.C07.cleanup_freq
 #print axioms FFVerif.C07.deriv_spec
 #print axioms FFVerif.C07.served_value_is_fresh
+#print axioms FFVerif.C11.exp_line_hasDerivAt_series_matrix
+#print axioms FFVerif.C11.dkA_eq_segIntegral
+#print axioms FFVerif.C11.divDiffExp_eq_dkA
+#print axioms FFVerif.C11.exp_hasDerivAt_eigenbasis_complex
+#print axioms FFVerif.C11.exp_hasDerivAt_eigenbasis
+#print axioms FFVerif.C11.segProp_hasDerivAt_amplitude
+#print axioms FFVerif.C11.exp_hasDerivAt_eigenbasis_entry
+#print axioms FFVerif.C11.liouvilleAMat_is_A
+#print axioms FFVerif.C11.liouvilleAMat_sub_A_le
+#print axioms FFVerif.C11.segment_propagator_derivative_model
+#print axioms FFVerif.C11.segment_propagator_derivative_model_error
+#print axioms FFVerif.C11.segment_propagator_eq_ratio
+#print axioms FFVerif.C11.cumulative_propagator_derivative
+#print axioms FFVerif.C11.cumulative_propagator_derivative_model
+#print axioms FFVerif.C11.exists_isEigh
+#print axioms FFVerif.C11.eigh_family_exists
+#print axioms FFVerif.C11.liouville_derivative_entry
+#print axioms FFVerif.C11.liouville_derivative_get
+#print axioms FFVerif.C11.liouville_derivative_contraction
+#print axioms FFVerif.C11.liouville_derivative_assembly
+#print axioms FFVerif.C11.liouville_derivative_of_pulse
+#print axioms FFVerif.C11.ctrlmatStepM_entry
+#print axioms FFVerif.C11.ctrlmatStepM_smul
+#print axioms FFVerif.C11.ctrlmatStepDeriv_entry
+#print axioms FFVerif.C11.liouvilleDerivative_theta
+#print axioms FFVerif.C11.controlMatrixDeriv_entry
+#print axioms FFVerif.C11.step_control_matrix_hasDerivAt
+#print axioms FFVerif.C11.liouville_derivative_model_hasDerivAt
+#print axioms FFVerif.C11.controlMatrixIntegral_hasDerivAt
+#print axioms FFVerif.C11.controlMatrixDeriv_hasDerivAt
+#print axioms FFVerif.C11.controlMatrixIntegral_hasDerivAt_sens
+#print axioms FFVerif.C11.controlMatrixDeriv_hasDerivAt_sens
+#print axioms FFVerif.C11.filterFunctionDeriv_hasDerivAt
+#print axioms FFVerif.CmDerivAux.segment_integral_hasDerivAt
+#print axioms FFVerif.CmDerivAux.Eprop_hasDerivAt
 #print axioms FFVerif.Pins.pinGetFFDerivative
 #print axioms FFVerif.Pins.pinGradControlMatrix
 #print axioms FFVerif.Pins.pinInfidelityDerivative
